@@ -44,6 +44,14 @@ def check(run, prog):
                 txt = __import__("ast").unparse(getattr(node, "test", node)).replace(" ", "")
                 if txt == "(i:=int(t))<t":
                     return True             # t is not a whole number in this scenario
+                # any other spelling of the same question: a test in t alone that has one answer at every fractional t
+                try:
+                    if isinstance(c, (sp.Basic,)) and c.free_symbols == {t} and c.has(sp.floor, sp.ceiling, sp.Mod, sp.frac):
+                        vals = {bool(c.subs(t, v)) for v in (sp.Rational(1, 3), sp.Rational(5, 2), sp.Rational(31, 4), sp.Rational(1001, 8))}
+                        if len(vals) == 1:
+                            return vals.pop()
+                except Exception:
+                    pass
             return None
         return nonzero_shift_oracle(o)
 
@@ -169,6 +177,10 @@ def check(run, prog):
             ck.same("R1", f_snip.where, f"snippet: {label}", "a boundary request inside [0, len] is accepted", False, found=str(e)[:160])
         except Unsupported as e:
             ck.unk("R1", f_snip.where, f"snippet: {label}", "a boundary request inside [0, len] is accepted", str(e))
+    # NT: the sample position may be a NumPy scalar (float32 out of an array, an integer from NumPy arithmetic)
+    for label, tv, kinds in (("t = 10.5", sp.Rational(21, 2), ("float32", "float16", "longdouble", "float64")), ("t = 3", 3, ("int64", "int32", "float32"))):
+        ck.number_types("NT", f_snip.where, f"snippet(z, {label}, 4)", lambda ev, mk, tv=tv: ev.call(f_snip, [z, mk(tv), Num(4)], {}),
+                        kinds=kinds, oracle=oracle(True))
     # the FFT routines work on (views of) the caller's data: they must never be given permission to overwrite their operand
     from ..structural import overwrite_report
     overwrite_report(ck, prog, "R1")
